@@ -100,6 +100,12 @@ func init() {
 		}
 		return strings.Contains(fail, "OAIGen") || strings.Contains(fail, "oaiGen") || strings.Contains(fail, "JSON pointer error")
 	}
+	// analysis.Schema on {"$ref": "#/definitions/x/<keyword>"} where x has no such keyword: the pointer
+	// resolves to a typed nil (*SchemaOrBool, *SchemaOrArray, *Schema) inside go-openapi/spec, whose
+	// resolver then marshals it: panic inside the dependency.
+	Classifiers["spec-typed-nil-pointer-target"] = func(prop string, c interface{}, fail string) bool {
+		return strings.Contains(fail, "panic in Schema") && strings.Contains(fail, "called using nil *")
+	}
 	// spec.ExpandSpec itself (go-openapi/spec, outside this repository) fails on the bundle: a remote
 	// reference cycle reached from documents in two different directories is rebased twice.
 	Classifiers["spec-expandspec-fails"] = func(prop string, c interface{}, fail string) bool {
